@@ -486,3 +486,72 @@ func init() {
 	register(&Scenario{Prop: "C08", Name: "c08/method-names-as-data", Quick: []Bound{{0, 0}}, Thorough: []Bound{{1, 0}}, Body: c08NamesBody, BudgetQ: 20, BudgetT: 100, MaxSteps: 400000, MinHB: 1})
 	register(&Scenario{Prop: "C08", Name: "c08/one-of-three-targets-dies", Quick: []Bound{{0, 0}}, Thorough: []Bound{{1, 0}}, Body: c08Shrink, BudgetQ: 20, BudgetT: 100, MaxSteps: 100000, MinHB: 1})
 }
+
+// response writes that fail for different reasons on one Server (the peer has gone: a broken
+// pipe; the server's own end was closed by Server.Close: EOF - errors of different concrete types),
+// in both orders, with a third connection being served afterwards: nothing panics.
+func c08FailedWrites(x *X) {
+	order := x.Choose(2)
+	dio := x.Choose(2) == 1
+	n := newNet()
+	w := newWorld()
+	so := srvOpts{bufSize: 64, directIO: dio}
+	srv, _ := startListener(n, w, "srv", so, false)
+	vs.Quiesce()
+	dial := func() *rpc.Conn {
+		c, err := rpc.DialWithOptions("srv", so.options(n, 64))
+		if err != nil {
+			vs.Fatal("dial failed: " + err.Error())
+		}
+		return c
+	}
+	c1, c2 := dial(), dial()
+	u1 := newUcall(1, fGate, 20, formCall)
+	u2 := newUcall(2, fGate, 20, formCall)
+	u1.spawn(c1)
+	u2.spawn(c2)
+	vs.Quiesce()
+	peerGone := func() {
+		// the peer of connection 1 goes away while its call executes; the response write fails
+		n.conns[0].end.Kill()
+		n.conns[0].end.p.closed[0] = true
+		vs.Quiesce()
+		w.open(1)
+		vs.Quiesce()
+	}
+	ownClosed := func() {
+		// the server closes connection 2 itself while its call executes
+		for _, a := range n.lis["srv"].accepted {
+			if a.id == n.conns[1].id {
+				a.end.Close()
+			}
+		}
+		vs.Quiesce()
+		w.open(2)
+		vs.Quiesce()
+	}
+	if order == 0 {
+		peerGone()
+		ownClosed()
+	} else {
+		ownClosed()
+		peerGone()
+	}
+	c3 := dial()
+	u3 := newUcall(3, 0, 20, formCall)
+	u3.spawn(c3)
+	vs.Quiesce()
+	if !u3.ret || u3.err != nil || !eqBytes(u3.reply, u3.want()) {
+		x.Fail("C08/server-not-serving/failed-writes", "after two response writes failed (a broken pipe and a closed connection, order %d) a new connection is not served: returned=%v err=%v", order, u3.ret, u3.err)
+	}
+	x.Outcome("order=%d dio=%v execs=%d/%d/%d", order, dio, w.execs[1], w.execs[2], w.execs[3])
+	c1.Close()
+	c2.Close()
+	c3.Close()
+	srv.Close()
+	vs.Quiesce()
+}
+
+func init() {
+	register(&Scenario{Prop: "C08", Name: "c08/failed-response-writes", Quick: []Bound{{0, 0}, {1, 0}}, Thorough: []Bound{{2, 0}}, Body: c08FailedWrites, MaxSteps: 100000, BudgetQ: 15})
+}
